@@ -50,6 +50,8 @@ class PF:
         return [d / (2 ** lv) for d in self.dx0]
 
     def geo_high(self):
+        if getattr(self, 'geo_high_given', None):
+            return list(self.geo_high_given)
         return [lo + n * d for lo, n, d in zip(self.geo_low, self.n0, self.dx0)]
 
     def grid_size(self, lv):
@@ -301,7 +303,7 @@ def make_odd0(r2, pf, mesh):
 
 def gen_plotfile(rng, ndims=None, nlevels=None, payload=None, geo_stream=None,
                  nfields=None, max_blocks=3, allow_repeat=False, layout=None, bf=None, mesh='blocks',
-                 awkward=0.0, odd0=0.0, odd_names=0.0):
+                 awkward=0.0, odd0=0.0, odd_names=0.0, domain_first=0.0):
     """awkward / odd0: probabilities of a geometry whose extent/dx quotient
     rounds below the cell count, and of an odd level-0 cell count.  Both draw
     from a generator derived from (not advancing) rng, so that the other choices
@@ -340,7 +342,20 @@ def gen_plotfile(rng, ndims=None, nlevels=None, payload=None, geo_stream=None,
     if odd0 and r2.random() < odd0:
         pf.n0 = list(pf.n0)
         extra.append('odd0:%d' % make_odd0(r2, pf, mesh))
-    if awkward and r2.random() < awkward:
+    if domain_first and r2.random() < domain_first:
+        # the way AMReX does it: the domain bounds are given, the cell size is their quotient, box bounds are low + k * dx
+        # (the upper bound of the boxes at the high face can then sit one ulp above the stated domain bound)
+        lows, highs = [], []
+        for n in pf.n0:
+            cands = [(lo, lo + k / 10) for lo in (0.1, -0.3, 0.016, 0.7, 1e-3, 2.0, -1.8, 12.5) for k in range(1, 41)]
+            over = [(lo, hi) for lo, hi in cands if lo + n * ((hi - lo) / n) > hi]       # the top box ends above the stated bound
+            lo, hi = r2.choice(over) if over and r2.random() < 0.8 else r2.choice(cands)
+            lows.append(lo)
+            highs.append(hi)
+        pf.geo_low, pf.geo_high_given = lows, highs
+        pf.dx0 = [(h - l) / n for l, h, n in zip(pf.geo_low, pf.geo_high_given, pf.n0)]
+        extra.append('domain-first')
+    elif awkward and r2.random() < awkward:
         pf.geo_low, pf.dx0 = list(pf.geo_low), list(pf.dx0)
         ax = make_awkward(r2, pf)
         if ax:
@@ -532,3 +547,34 @@ def arr_canon(a):
     if a.dtype != np.dtype('float64'):
         return ['dtype', str(a.dtype)]
     return [list(a.shape), a.astype('<f8').tobytes(order='F')]
+
+
+def write_huge_offset_plotfile(path):
+    """a well-formed one-level plotfile whose single binary file is larger than 2 GiB (written sparse: a few kB on
+    disk): box 0 is 65536 x 64 x 64 cells of zeros, box 1 (4 x 64 x 64, distinct values) starts behind 2**31 bytes
+    -> (pf, offset of box 1, data of box 1)"""
+    pf = PF()
+    pf.ndims, pf.fields, pf.time, pf.step = 3, ['temp'], 0.5, 7
+    pf.geo_low, pf.dx0, pf.n0 = [0.0, 0.0, 0.0], [1.0, 1.0, 1.0], [65536 + 4, 64, 64]
+    pf.bf = 2
+    lev = Level()
+    lev.boxes = [((0, 0, 0), (65535, 63, 63)), ((65536, 0, 0), (65539, 63, 63))]
+    small = np.asfortranarray(np.arange(1, 4 * 64 * 64 + 1, dtype='float64').reshape((4, 64, 64, 1), order='F'))
+    pf.levels = [lev]
+    os.makedirs(os.path.join(path, 'Level_0'))
+    h0 = fab_header(*lev.boxes[0], 1)
+    off1 = len(h0) + 8 * 65536 * 64 * 64
+    with open(os.path.join(path, 'Level_0', 'Cell_D_00000'), 'wb') as f:
+        f.write(h0)
+        f.seek(off1)
+        f.write(fab_bytes(*lev.boxes[1], small))
+    lev.data = [np.zeros((1, 1, 1, 1)), small]
+    lev.files = [('Cell_D_00000', [0, 1])]
+    with open(os.path.join(path, 'Header'), 'w') as f:
+        f.write(header_text(pf))
+    zero = minmax_token(0.0)
+    with open(os.path.join(path, 'Level_0', 'Cell_H'), 'w') as f:
+        f.write(cell_h_text(pf, 0, [('Cell_D_00000', 0), ('Cell_D_00000', off1)],
+                            mins=[[zero], [minmax_token(1.0)]], maxs=[[zero], [minmax_token(float(small.max()))]]))
+    pf.meta = dict(case='binary file above 2 GiB (sparse)', nlevels=1, ndims=3)
+    return pf, off1, small
